@@ -149,6 +149,40 @@ Definition cb_reset s :=
   set_tr s Exiting >>= fun s =>
   set_tr (new_epoch (set_priority (set_waits s (false, false, false)) None)) Active.
 
+(* one callback of an edge; [rec] = Event.trigger for the nested triggers *)
+Definition run_cb (rec : fstate -> trigger -> fstate * outcome) (s : fstate) (c : callback)
+  : fstate * outcome :=
+  match c with
+  | Cb_start => cb_start s
+  | Cb_load => cb_load s
+  | Cb_navel_gaze => cb_navel_gaze s
+  | Cb_save_prior_state => cb_save_prior_state s
+  | Cb_reload => cb_reload s
+  | Cb_reset => cb_reset s
+  | Cb_fire t' => rec s t'
+  | Cb_archive =>
+    (* FSM.archive *)
+    set_tr s Entering >>= fun s =>
+    if archive_flag s then (defer s BgArchive, Ok)
+    else
+      (* FSM._archive_done *)
+      let s := set_tr_raw (set_archive s false) Active in
+      match prior s with
+      | None => (s, NoPrior)
+      | Some p => match state_trigger p with
+                  | None => (s, NoAttr)
+                  | Some t' => rec s t'
+                  end
+      end
+  end.
+
+Fixpoint run_cbs (rec : fstate -> trigger -> fstate * outcome) (s : fstate) (cs : list callback)
+  : fstate * outcome :=
+  match cs with
+  | [] => (s, Ok)
+  | c :: cs' => run_cb rec s c >>= fun s => run_cbs rec s cs'
+  end.
+
 (* Event.trigger of transitions, with the callbacks of FSM inlined by name;
    [fire] and the callbacks that fire nested triggers are mutually
    recursive, hence the fuel *)
@@ -159,38 +193,9 @@ Fixpoint fire (fuel : nat) (s : fstate) (t : trigger) {struct fuel} : fstate * o
     match find_edge t (st s) with
     | None => (s, Rejected)
     | Some e =>
-      let run_cb := fun (s : fstate) (c : callback) =>
-        match c with
-        | Cb_start => cb_start s
-        | Cb_load => cb_load s
-        | Cb_navel_gaze => cb_navel_gaze s
-        | Cb_save_prior_state => cb_save_prior_state s
-        | Cb_reload => cb_reload s
-        | Cb_reset => cb_reset s
-        | Cb_fire t' => fire f s t'
-        | Cb_archive =>
-          (* FSM.archive *)
-          set_tr s Entering >>= fun s =>
-          if archive_flag s then (defer s BgArchive, Ok)
-          else
-            (* FSM._archive_done *)
-            let s := set_tr_raw (set_archive s false) Active in
-            match prior s with
-            | None => (s, NoPrior)
-            | Some p => match state_trigger p with
-                        | None => (s, NoAttr)
-                        | Some t' => fire f s t'
-                        end
-            end
-        end in
-      let run_cbs := fix run_cbs (s : fstate) (cs : list callback) : fstate * outcome :=
-        match cs with
-        | [] => (s, Ok)
-        | c :: cs' => run_cb s c >>= fun s => run_cbs s cs'
-        end in
-      run_cbs s (e_before e) >>= fun s =>
+      run_cbs (fire f) s (e_before e) >>= fun s =>
       let s := if trigger_eqb t T_update then count_update s else s in
-      run_cbs (set_st s (e_dst e)) (e_after e)
+      run_cbs (fire f) (set_st s (e_dst e)) (e_after e)
     end
   end.
 
